@@ -24,14 +24,14 @@ import (
 )
 
 var (
-	mode  = flag.String("mode", "run", "")
-	seed  = flag.Uint64("seed", 1, "")
-	ncase = flag.Int("n", 300, "")
-	outp  = flag.String("out", "/dev/stdout", "")
-	casef = flag.String("case", "", "")
-	reps  = flag.Int("reps", 50, "")
+	mode   = flag.String("mode", "run", "")
+	seed   = flag.Uint64("seed", 1, "")
+	ncase  = flag.Int("n", 300, "")
+	outp   = flag.String("out", "/dev/stdout", "")
+	casef  = flag.String("case", "", "")
+	reps   = flag.Int("reps", 50, "")
 	casesf = flag.String("cases", "", "file receiving one JSON line per generated case")
-	scen  = flag.String("scenarios", "rawcr,searcher,load,loadall", "comma separated scenario list")
+	scen   = flag.String("scenarios", "rawcr,searcher,load,loadall", "comma separated scenario list")
 )
 
 type Op struct {
